@@ -64,6 +64,11 @@ PoolHist == { Base("r1"), [Base("r1") EXCEPT !.path = <<"dyn", "/X/@m">>],
 \* path-sensitive exploration (VIEW ViewKinds): rules sharing a static path and bucket, a rule under two method buckets, dynamic host
 PoolPaths == { Base("r1"), Base("r4"), [Base("r3") EXCEPT !.path = <<"dyn", "/x/@m">>, !.methods = <<"GET", "POST">>],
                [Base("r2") EXCEPT !.host = <<"dyn", "@sub.example.com">>] }
+\* insertion orders (VIEW ViewOrder): dynamic paths and hosts whose place in the regex trees depends on the order
+PoolOrders == { [Base("r1") EXCEPT !.path = <<"dyn", "/x/@m">>], [Base("r2") EXCEPT !.path = <<"dyn", "/x/@m/y">>],
+                [Base("r3") EXCEPT !.path = <<"dyn", "/X/@m">>], [Base("r4") EXCEPT !.path = <<"dyn", "/X/y/@m">>],
+                [Base("r2") EXCEPT !.host = <<"dyn", "@sub.example.com">>],
+                [Base("r3") EXCEPT !.host = <<"dyn", "@sub.example.com">>, !.path = <<"dyn", "/x/@m">>] }
 PoolHistQ == { Base("r1"), [Base("r1") EXCEPT !.path = <<"dyn", "/X/@m">>], [Base("r1") EXCEPT !.path = <<"dyn", "/X/@n">>],
                [Base("r2") EXCEPT !.path = <<"dyn", "/X/@m/y">>], [Base("r2") EXCEPT !.host = <<"dyn", "@sub.example.com">>],
                [Base("r3") EXCEPT !.host = <<"static", "example.com">>, !.ips = <<<<"in", "10.0.0.0/8">>, <<"not_in", "10.1.0.0/16">>>>],
